@@ -537,6 +537,72 @@ def r02_10(chk, P, rule='R02.10'):
                        f'`{F.s(j)}` -- with a set-up that mixes backend types the routine runs on a structure of another layout')
     return n
 
+
+def r02_11(chk, P, rule='R02.11'):
+    chk.rule(rule, 'every packet-level decode call tolerates a decoder state whose vorbis_synthesis_init was refused: a refusal '
+             '(no set-up header yet, or a codebook rejected while the decode tables are built -- found at init time, not by '
+             'vorbis_synthesis_headerin) leaves the vorbis_dsp_state wiped (vi == NULL, backend_state == NULL).  Every function of '
+             'the decode API that takes a vorbis_dsp_state* or a vorbis_block* is analysed (K4 pointer nullness) with these two '
+             'fields null on entry: no member access through a null pointer is reachable -- the function tests them first and '
+             'answers with an error code, as vorbis_synthesis and vorbis_synthesis_restart do')
+    import absint
+    from absint import V
+    n = 0
+    dsp_fields = (P.record('vorbis_dsp_state') or {}).get('fields', [])
+    chk.require(dsp_fields, 'record vorbis_dsp_state not found')
+    for name in common.decode_api(P):
+        G = P.get(name)
+        # the calls the property quantifies over: the synthesis entry points and the init / clear functions of the two objects
+        if G is None or G.entry is None or not name.startswith(('vorbis_synthesis', 'vorbis_block_', 'vorbis_dsp_')):
+            continue
+        nulls = []
+        for p_ in G.params:
+            t = p_['t'].replace('const ', '').strip()
+            if t in ('vorbis_dsp_state *', 'struct vorbis_dsp_state *'):
+                nulls += [(p_, f'v{p_["id"]}->vi'), (p_, f'v{p_["id"]}->backend_state')]
+            elif t in ('vorbis_block *', 'struct vorbis_block *'):
+                nulls += [(p_, f'v{p_["id"]}->vd->vi'), (p_, f'v{p_["id"]}->vd->backend_state')]
+        if not nulls:
+            continue
+        A = absint.Analyzer(P, G)
+        base_init = A.initial_env
+
+        def init(base_init=base_init, nulls=nulls):
+            env = base_init()
+            for p_, key in nulls:
+                env[f'v{p_["id"]}'] = V(nn=True)
+                if '->vd->' in key:
+                    env[f'v{p_["id"]}->vd'] = V(nn=True)
+                env[key] = V(0, 0, nn=False)
+                # the refusal wiped the whole state: every integer field is zero as well
+                base = key[:key.rindex('->')]
+                for f_ in dsp_fields:
+                    if not f_.get('ptr') and absint.int_type_range(f_.get('t', '')):
+                        env[f'{base}->{f_["name"]}'] = V(0, 0)
+            return env
+        A.initial_env = init
+        bad = {}
+
+        def obs(A_, env, e, v):
+            nd = A_.ex[e]
+            if nd['k'] == 'member' and nd.get('arrow'):
+                par_ = A_.F.sparent.get(e)
+                if par_ is not None and A_.ex[par_]['k'] == 'un' and A_.ex[par_]['op'] == '&':
+                    return
+                b = A_.F.strip_casts(nd['c'][0])
+                bv = A_.peek(env, b)
+                if isinstance(bv, V) and not bv.is_bottom() and (bv.nn is False or bv.const() == 0) and bv.nn is not True:
+                    bad.setdefault(e, A_.F.s(e))
+        A.observers.append(obs)
+        A.run()
+        e0 = sorted(bad, key=lambda x: G.ex[x].get('loc') or [0, 0])[0] if bad else None
+        n += 1
+        chk.ob(rule, G.name, 'tolerates-refused-init-state', not bad, G.where(e0) if e0 else G.where(),
+               'no access through the null vi / backend_state of a wiped state is reachable' if not bad else
+               f'`{bad[e0]}` is evaluated with the state wiped (vi == NULL, backend_state == NULL) and no test of the pointer on the '
+               'way: a caller that goes on after vorbis_synthesis_init returned 1 crashes here instead of getting an error code')
+    return n
+
 def run(chk, P):
     r02_6(chk, P)
     chk.floor('R02.6', 1)
@@ -547,6 +613,8 @@ def run(chk, P):
     r02_9(chk, P)
     r02_10(chk, P)
     chk.floor('R02.10', 12)
+    r02_11(chk, P)
+    chk.floor('R02.11', 8)
     chk.floor('R02.9', 3)
     D = k4dec.decode_driver(P)
     r02_1(chk, P, D)
